@@ -405,9 +405,17 @@ def highlevel(ctx, cov):
             k = rng.random()
             if k < 0.35:
                 steps.append(("client", rng.choice(["101", "202", "303"])))
+            elif k < 0.45:
+                steps.append(("mutate",))     # image 5 (a PIL image opened from a file) is edited in place: a different picture from now on
             else:
-                steps.append(("upload", rng.randrange(5), rng.random() < 0.15))
+                steps.append(("upload", rng.choice([0, 1, 2, 3, 4, 5, 5]), rng.random() < 0.15))
         scenarios.append({"steps": steps, "N": rng.choice([1, 2, 1024]), "B": rng.choice([200, 1500, 10**9]), "redetect": rng.random() < 0.85})
+    # fixed: the file-backed PIL image is sent, edited in place, requested again (generous thresholds, one terminal)
+    scenarios.insert(0, {"steps": [("upload", 5, False), ("mutate",), ("upload", 5, False), ("upload", 5, False), ("mutate",), ("upload", 5, False)], "N": 1024, "B": 10**9, "redetect": True})
+    scenarios.insert(1, {"steps": [("upload", 0, False), ("upload", 5, False), ("mutate",), ("upload", 5, False)], "N": 1024, "B": 10**9, "redetect": False})
+    # fixed: the attached tmux client changes between two requests for the same image (and back)
+    scenarios.insert(2, {"steps": [("upload", 0, False), ("client", "202"), ("upload", 0, False), ("upload", 1, False), ("client", "101"), ("upload", 0, False), ("upload", 1, False),
+                                   ("client", "303"), ("upload", 3, False)], "N": 1024, "B": 10**9, "redetect": True})
 
     def child():
         common.scrub_process_env()
@@ -435,9 +443,25 @@ def highlevel(ctx, cov):
             im.save(b, format="PNG")
             imgs.append(im)
             sizes.append(len(b.getvalue()))
+        # image 5: opened from a file with PIL (the object keeps .filename) and edited in place during the scenario
+        opened_path = os.path.join(work, "c04-hl-opened.png")
+        base5 = Image.new("RGB", (9, 7))
+        base5.putdata([(noise.randrange(256), noise.randrange(256), noise.randrange(256)) for _ in range(63)])
+        base5.save(opened_path)
+
+        def png_size(im):
+            b_ = io.BytesIO()
+            im.save(b_, format="PNG")
+            return len(b_.getvalue())
+        imgs.append(None)
+        sizes.append(0)
         tty_in = open("/dev/tty", "rb", buffering=0)
         out = []
         for si, sc in enumerate(scenarios):
+            imgs[5] = Image.open(opened_path)
+            imgs[5].load()
+            sizes[5] = png_size(imgs[5])
+            gen5 = 0
             with open(client_file, "w") as f:
                 f.write("101")
             db = os.path.join(work, f"c04-hl-{os.getpid()}-{si}.db")
@@ -453,11 +477,17 @@ def highlevel(ctx, cov):
                     with open(client_file, "w") as f:
                         f.write(client)
                     log.append(["client", client])
+                elif st[0] == "mutate":
+                    gen5 += 1
+                    imgs[5].putpixel((gen5 % 9, 0), ((gen5 * 37) % 256, 200, 3))
+                    sizes[5] = png_size(imgs[5])
+                    log.append(["mutate"])
                 else:
                     n0 = len(stream.writes)
                     inst = t.upload(imgs[st[1]], force_upload=st[2])
                     sent = sum(len(w) for w in stream.writes[n0:])
-                    log.append(["upload", st[1], bool(st[2]), inst.id, sent, t._terminal_id, sizes[st[1]]])
+                    label = st[1] if st[1] != 5 else f"5.{gen5}"
+                    log.append(["upload", label, bool(st[2]), inst.id, sent, t._terminal_id, sizes[st[1]]])
             out.append(log)
             os.remove(db)
         return out
@@ -475,6 +505,8 @@ def highlevel(ctx, cov):
         for ev in log:
             if ev[0] == "client":
                 current = ev[1]
+                continue
+            if ev[0] == "mutate":
                 continue
             _, img, force, id_, sent, tid, size = ev
             term = current if sc["redetect"] else known
